@@ -54,7 +54,8 @@ def program(headers, variant, incdir):
     if variant == 'include':
         lines.append('Include %s/top.conf' % incdir)
     if variant == 'include-multi':
-        lines.append('Include %s/m1.conf %s/m2.conf' % (incdir, incdir))
+        # several files on one line are read in the order written (not sorted): m2 before m1 here
+        lines.append('Include %s/m2.conf %s/g3.conf %s/m1.conf' % (incdir, incdir, incdir))
     for i, h in enumerate(headers):
         lines.append(h)
         for o in block_options(i, variant, incdir):
